@@ -15,6 +15,7 @@ import Driver.Lifetime
 import Driver.Extent
 import Driver.Fill
 import Driver.Format
+import Driver.CompositeQ
 /-! `pixdrv <domain>`: reads requests on stdin, writes one reply line per request. -/
 
 partial def loop (h : IO.FS.Stream) (out : IO.FS.Stream) (f : String → String) : IO Unit := do
@@ -44,4 +45,5 @@ def main (args : List String) : IO UInt32 := do
   | ["extent"] => loop stdin stdout Driver.Extent.handle; return 0
   | ["fill"] => loop stdin stdout Driver.Fill.handle; return 0
   | ["format"] => loop stdin stdout Driver.Format.handle; return 0
+  | ["compositeq"] => loop stdin stdout Driver.CompositeQ.handle; return 0
   | _ => IO.eprintln "usage: pixdrv <domain>"; return 2
